@@ -1,4 +1,5 @@
 import UralModel.Lemmas.FacebookPath
+import UralModel.Lemmas.PctCodec
 /-!
 Queries the record builders of `ural/facebook.py` make (C19 round trip):
 `safe_parse_qs("k1=v1&k2=v2…")` gives the items back.
@@ -12,19 +13,24 @@ def qkeyOk (k : Str) : Bool :=
   qvalOk k && !k.contains '=' && (match k with | c :: _ => lowerChar c ≠ 'a' | [] => false)
 
 theorem qvalChar_spec {c : Char} (h : qvalChar c = true) :
-    c ≠ '&' ∧ c ≠ '#' ∧ c ≠ '+' ∧ c ≠ '%' ∧ isUnsafeUrlChar c = false := by
+    c ≠ '&' ∧ c ≠ '#' ∧ c ≠ '+' ∧ isUnsafeUrlChar c = false := by
   unfold qvalChar at h
   simp only [Bool.and_eq_true, decide_eq_true_eq, Bool.not_eq_true'] at h
-  exact ⟨h.1.1.1.1, h.1.1.1.2, h.1.1.2, h.1.2, h.2⟩
+  exact ⟨h.1.1.1, h.1.1.2, h.1.2, h.2⟩
 
 theorem qvalChar_queryChar {c : Char} (h : qvalChar c = true) : queryChar c = true := by
-  obtain ⟨_, h2, _, _, h5⟩ := qvalChar_spec h
+  obtain ⟨_, h2, _, h5⟩ := qvalChar_spec h
   simp [queryChar, h2, h5]
 
 theorem qvalOk_spec {s : Str} (h : qvalOk s = true) : s ≠ [] ∧ ∀ c ∈ s, qvalChar c = true := by
   unfold qvalOk at h
   simp only [Bool.and_eq_true, Bool.not_eq_true', List.all_eq_true] at h
-  exact ⟨by intro e; rw [e] at h; simp at h, h.2⟩
+  exact ⟨by intro e; rw [e] at h; simp at h, h.1.2⟩
+
+theorem qvalOk_noEscape {s : Str} (h : qvalOk s = true) : hasEscape s = false := by
+  unfold qvalOk at h
+  simp only [Bool.and_eq_true, Bool.not_eq_true'] at h
+  exact h.2
 
 theorem qkeyOk_spec {k : Str} (h : qkeyOk k = true) :
     qvalOk k = true ∧ '=' ∉ k ∧ ∃ c cs, k = c :: cs ∧ lowerChar c ≠ 'a' := by
@@ -175,11 +181,105 @@ theorem unquote_of_no_pct (s : Str) (h : '%' ∉ s) : unquote s = s := by
   unfold unquote
   simp only [List.contains_iff_mem, h, if_false]
 
+/-! ### a string without percent escape is left alone by `unquote` (a bare `%` stays) -/
+
+theorem pctHead_append_none (x b : Str) (h : pctHead (x ++ b) = none) : pctHead x = none := by
+  match x with
+  | [] => rfl
+  | [_] => rfl
+  | a :: c :: rest => simpa [pctHead] using h
+
+theorem hasEscape_append_left (a b : Str) (h : hasEscape (a ++ b) = false) : hasEscape a = false := by
+  induction a with
+  | nil => rfl
+  | cons c cs ih =>
+    simp only [List.cons_append, hasEscape, Bool.or_eq_false_iff, Bool.and_eq_false_iff] at h ⊢
+    refine ⟨?_, ih h.2⟩
+    rcases h.1 with h1 | h1
+    · left; exact h1
+    · right
+      have : pctHead (cs ++ b) = none := by simpa using h1
+      simp [pctHead_append_none cs b this]
+
+theorem hasEscape_append_right (a b : Str) (h : hasEscape (a ++ b) = false) : hasEscape b = false := by
+  induction a with
+  | nil => simpa using h
+  | cons c cs ih =>
+    simp only [List.cons_append, hasEscape, Bool.or_eq_false_iff] at h
+    exact ih h.2
+
+theorem hasEscape_append_of_no_pct (a b : Str) (h : '%' ∉ a) : hasEscape (a ++ b) = hasEscape b := by
+  induction a with
+  | nil => rfl
+  | cons c cs ih =>
+    have hc : c ≠ '%' := fun e => h (by simp [e])
+    have hb : (c == '%') = false := by simpa using hc
+    simp only [List.cons_append, hasEscape, hb, Bool.false_and, Bool.false_or]
+    exact ih (fun e => h (by simp [e]))
+
+theorem unquoteToBytesGo_noEscape (t : Str) (hascii : ∀ c ∈ t, c.toNat < 128) (h : hasEscape t = false) :
+    unquoteToBytesGo t 0 = utf8Encode t := by
+  induction t with
+  | nil => simp [unquoteToBytesGo, utf8Encode]
+  | cons c t ih =>
+    have h1 := hascii c (by simp)
+    have henc : utf8Encode (c :: t) = String.utf8EncodeChar c ++ utf8Encode t := by simp [utf8Encode]
+    simp only [hasEscape, Bool.or_eq_false_iff, Bool.and_eq_false_iff] at h
+    have iht := ih (fun x hx => hascii x (by simp [hx])) h.2
+    rw [henc, utf8EncodeChar_ascii c h1]
+    by_cases hc : c = '%'
+    · subst hc
+      have hp : pctHead t = none := by
+        rcases h.1 with h0 | h0
+        · simp at h0
+        · simpa using h0
+      simp only [unquoteToBytesGo, if_true, hp, List.cons_append, List.nil_append]
+      rw [iht]; rfl
+    · simp only [unquoteToBytesGo, hc, if_false, List.cons_append, List.nil_append]
+      rw [iht]
+
+theorem unquoteRuns_noEscape : ∀ (s acc : Str), (∀ c ∈ acc, c.toNat < 128) → hasEscape (acc.reverse ++ s) = false →
+    unquoteRuns s acc = acc.reverse ++ s := by
+  intro s
+  induction s with
+  | nil =>
+    intro acc hacc h
+    simp only [List.append_nil] at h ⊢
+    simp only [unquoteRuns, unquoteFlush, unquoteToBytes]
+    rw [unquoteToBytesGo_noEscape _ (by intro c hc; exact hacc c (by simpa using hc)) h, utf8DecodeReplace_encode]
+  | cons c cs ih =>
+    intro acc hacc h
+    by_cases hc : c.toNat < 128
+    · simp only [unquoteRuns, hc, if_true]
+      have hacc' : ∀ x ∈ c :: acc, x.toNat < 128 := by
+        intro x hx
+        rcases List.mem_cons.mp hx with e | e
+        · rw [e]; exact hc
+        · exact hacc x e
+      rw [ih (c :: acc) hacc' (by simpa using h)]
+      simp
+    · simp only [unquoteRuns, hc, if_false]
+      have hl := hasEscape_append_left _ _ h
+      have hr := hasEscape_append_right _ _ h
+      have hcs : hasEscape cs = false := by
+        simp only [hasEscape, Bool.or_eq_false_iff] at hr; exact hr.2
+      rw [ih [] (by simp) (by simpa using hcs)]
+      simp only [unquoteFlush, unquoteToBytes, List.reverse_nil, List.nil_append]
+      rw [unquoteToBytesGo_noEscape _ (by intro x hx; exact hacc x (by simpa using hx)) hl, utf8DecodeReplace_encode]
+
+/-- **`unquote(s) == s` when `s` has no percent escape** -/
+theorem unquote_of_noEscape (s : Str) (h : hasEscape s = false) : unquote s = s := by
+  unfold unquote
+  split
+  · exact unquoteRuns_noEscape s [] (by simp) (by simpa using h)
+  · rfl
+
+theorem hasEscape_plusToSpace (s : Str) (h : '+' ∉ s) : plusToSpace s = s := plusToSpace_of_not_mem s h
+
 theorem qvalOk_decode {s : Str} (h : qvalOk s = true) : unquote (plusToSpace s) = s := by
   have hs := (qvalOk_spec h).2
   have h1 : '+' ∉ s := fun hm => (qvalChar_spec (hs _ hm)).2.2.1 rfl
-  have h2 : '%' ∉ s := fun hm => (qvalChar_spec (hs _ hm)).2.2.2.1 rfl
-  rw [plusToSpace_of_not_mem s h1, unquote_of_no_pct s h2]
+  rw [plusToSpace_of_not_mem s h1, unquote_of_noEscape s (qvalOk_noEscape h)]
 
 theorem qslPair_wireItem {kv : Str × Str} (h : itemOk kv = true) : qslPair? (wireItem kv) = some kv := by
   unfold itemOk at h
